@@ -375,4 +375,10 @@ example : erasePads c16V9Example ≠ c16V9Example ∧ toJ jsonCfg jsonNames (era
 example : pktWf jsonCfg jsonNames c16WitnessU8 = true ∧ jnorm c16WitnessU8 = jnorm c16WitnessU32 ∧ c16WitnessU8 ≠ c16WitnessU32 :=
   ⟨by decide, by decide, by decide⟩
 
+/-- **C16.0** (regenerated from the source on every run) the library declares no mutable global or per-thread state
+    (`static mut`, `thread_local!`, `OnceLock`/`OnceCell`/`lazy_static!`, `static … : Mutex|RwLock|Atomic…`), as the model assumes
+    by making `parseBytes` a function of `(config, parser state, buffer)`: serialisation and parsing read no state outside the values they are given (determinism across parser instances). -/
+theorem C16_no_global_state : Generated.noGlobals = true := by decide
+
+
 end Netflow.Props
